@@ -109,7 +109,7 @@ impl Property for C17 {
         "C17"
     }
     fn rule(&self) -> String {
-        "case = a generated unit of 8..40 messages (two thirds of the units keep every line under a quarter block, one third has head and continuation lines of up to 3 blocks; messages span several blocks either way; one case in ten forces newlines onto the last byte of blocks) repeated k1 < k2 < k3 times with advancing timestamps (k3 up to 128 quick / 512 thorough, x4 at 64 KiB) x block size 256..4096|65536 x container plain/gz/bz2/lz4, printed from start to end with --summary. oracle (metamorphic + absolute): the per-file high-water marks `blocks high`, `lines high`, `syslines high` of the largest file must not exceed those of the middle file by more than a constant (2 blocks / the lines+messages of 2 blocks, plus what 8 messages in flight between the file thread and the printing thread can hold) and must stay under a bound computed from the generated parameters only (9 x ceil(max message/bs) + 8 blocks), never from the file size; with -a in the middle of a plain file the bound gains (2*log2(blocks)+8) x (blocks per message + 1). No growth is tolerated since the fixes 5189d6da/c8987618 (formerly known findings F8, F19, F20). non-trivial = largest file >= 300 blocks and >= 3x the middle file; distinct = hash(case).".into()
+        "case = a generated unit of 8..40 messages (two thirds of the units keep every line under a quarter block, one third has head and continuation lines of up to 3 blocks; messages span several blocks either way; one case in ten forces newlines onto the last byte of blocks) repeated k1 < k2 < k3 times with advancing timestamps (k3 up to 128 quick / 512 thorough, x4 at 64 KiB) x block size 256..4096|65536 (at 65536 half of the units are tiny one-line messages, > 1024 messages per block, repeated 8192 times) x container plain/gz/bz2/lz4, printed from start to end with --summary. oracle (metamorphic + absolute): the per-file high-water marks `blocks high`, `lines high`, `syslines high` of the largest file must not exceed those of the middle file by more than a constant (2 blocks / the lines+messages of 2 blocks, plus what 8 messages in flight between the file thread and the printing thread can hold) and must stay under a bound computed from the generated parameters only (9 x ceil(max message/bs) + 8 blocks), never from the file size; with -a in the middle of a plain file the bound gains (2*log2(blocks)+8) x (blocks per message + 1). No growth is tolerated since the fixes 5189d6da/c8987618 (formerly known findings F8, F19, F20). non-trivial = largest file >= 300 blocks and >= 3x the middle file; distinct = hash(case).".into()
     }
     fn assumptions(&self) -> Vec<String> {
         vec!["high-water marks are those reported by --summary".into(), "constants calibrated on the unchanged tree with margin (see DESIGN.md C17)".into()]
@@ -137,10 +137,15 @@ impl Property for C17 {
             let shortmsg = (0u16..q.saturating_sub(46).max(1), prop_oneof![3 => prop::collection::vec(0u16..q.max(1), 0..3), 1 => prop::collection::vec(0u16..q.max(1), 3..14)]);
             let anymsg = (head, prop_oneof![3 => prop::collection::vec(cont.clone(), 0..3), 1 => prop::collection::vec(cont, 3..14)]);
             let unit = prop_oneof![2 => prop::collection::vec(shortmsg, 8..40), 1 => prop::collection::vec(anymsg, 8..40)];
+            // at the default block size half of the units consist of tiny one-line messages: more than a thousand
+            // messages per block, in files of well over a hundred blocks' worth of messages
+            let tiny = prop::collection::vec((0u16..12, Just(Vec::<u16>::new())), 20..40);
+            let unit = if bs >= 65536 { prop_oneof![1 => unit, 1 => tiny].boxed() } else { unit.boxed() };
             (unit, Just(bs), 0u8..4, prop::option::weighted(0.25, any::<u16>()), prop::bool::weighted(0.1))
         })
         .prop_map(move |(unit, bs, cont, after_frac, align)| {
-            let k3 = if bs >= 65536 { kmax.max(64) * 4 } else { kmax };
+            let tiny = bs >= 65536 && unit.iter().all(|(h, c)| *h < 12 && c.is_empty());
+            let k3 = if tiny { 8192 } else if bs >= 65536 { kmax.max(64) * 4 } else { kmax };
             Case { unit, bs, cont, reps: vec![(k3 / 16).max(1), (k3 / 4).max(2), k3], align_newlines: align, after_frac: if cont == 0 { after_frac } else { None } }
         })
         .boxed()
@@ -254,6 +259,9 @@ impl Property for C17 {
         }
         if msg_blocks >= 3 {
             o = o.class("message-spans>=3-blocks");
+        }
+        if nmsg3 as u64 > 1024 * blocks_of(sz3) {
+            o = o.class("messages-per-block>1024");
         }
         if with_search {
             o = o.class("with -a (search first)");
